@@ -35,6 +35,10 @@ pub fn mode_of(base: u64, family: Family, idx: u64) -> (Mode, u64) {
             let seed = run_seed(base, family, idx);
             (Mode::Prefix(crate::families::c11x_point(idx % crate::families::c11x_total()), seed), seed)
         }
+        Family::C06L => {
+            let seed = run_seed(base, family, idx);
+            (Mode::Prefix(vec![(idx % 4) as u32], seed), seed)
+        }
         Family::C13X => {
             let seed = run_seed(base, family, idx);
             (Mode::Prefix(crate::families::c13x_point(idx % crate::families::c13x_total()), seed), seed)
